@@ -13,12 +13,12 @@ import (
 // TestC14: deletable ranges with 1..3 OnDelete handlers failing or panicking at every position.
 func TestC14(t *testing.T) {
 	rng := emit.NewRand(emit.Seed())
-	w := emit.NewWriter("Model.Store Model.StoreSpec Oracle.StoreCase", "scase", "chk_store")
+	w := emit.NewWriter("Model.Store Model.StoreSpec Oracle.StoreCase Oracle.C14", "case14", "chk14")
 	w.PerShard(40)
 	w.Rule = "stores with flushed and unflushed headers, 1..3 registered OnDelete handlers; tail-side, head-side and whole-store DeleteRange with a " +
 		"scripted handler error or panic at a chosen (handler, height) (thorough: every position of ranges <= 8 x every handler x error/panic), then a " +
 		"retry of the same range without failure; each handler records GetByHeight(height) at call time; the handler log is compared with the " +
-		"headers that actually disappeared. distinct by (config, ops); non-trivial when a handler was called"
+		"headers that actually disappeared; plus the PARALLEL deletion path (threshold lowered by the verif hook) with a failing/panicking handler and the retry, checked by a relational oracle. distinct by (config, ops); non-trivial when a handler was called"
 	run := func(cfg storeh.Config, size int, side int, fail *storeh.Fail, class string) {
 		appendOnly := storeh.RandomGen(rng, cfg, storeh.Weights{Append: 100})
 		rest := storeh.RandomGen(rng, cfg, storeh.Weights{Append: 50, Delete: 35, Restart: 15, InvalidDelete: 10, FailPct: 50})
@@ -72,7 +72,7 @@ func TestC14(t *testing.T) {
 			}
 		}
 		res := storeh.Run(t, rng, cfg, 4+rng.Intn(5), gen)
-		w.Add(res.Term, res.Descr, class+fmt.Sprint(res.Descr["ops"]), res.HandlerCalls > 0)
+		w.Add("CSeq ("+res.Term+")", res.Descr, class+fmt.Sprint(res.Descr["ops"]), res.HandlerCalls > 0)
 		w.Count("handler_calls", fmt.Sprint(res.HandlerCalls/5*5))
 		w.Count("handlers", fmt.Sprint(cfg.NH))
 		w.Count("side", fmt.Sprint(side))
@@ -108,6 +108,21 @@ func TestC14(t *testing.T) {
 			f = &storeh.Fail{Handler: rng.Intn(cfg.NH), Height: uint64(rng.Intn(8)), Panic: rng.Chance(40)}
 		}
 		run(cfg, 3+rng.Intn(8), rng.Intn(3), f, "rand/")
+	}
+	// the parallel deletion path (threshold lowered through the verif hook) with a failing handler, then the retry
+	np := 14
+	if emit.Thorough() {
+		np = 150
+	}
+	for i := 0; i < np; i++ {
+		cfg := cfgOf()
+		cfg.U = 30
+		k := uint64(12 + rng.Intn(16))
+		to := uint64(6 + rng.Intn(int(k)-6))
+		f := storeh.Fail{Handler: rng.Intn(cfg.NH), Height: uint64(1 + rng.Intn(int(to)-1)), Panic: rng.Chance(30)}
+		term, d := storeh.RunPar(t, rng, cfg, k, to, f)
+		w.Add(term, d, fmt.Sprint(d), true)
+		w.Count("side", "parallel-path")
 	}
 	if err := w.Flush(); err != nil {
 		t.Fatal(err)
